@@ -19,6 +19,10 @@ Definition clamp116 (an : Z) : Z := if 116 <? an then 116 else an.
 (* fold `v |= 1 << f(x)` over a tuple *)
 Definition or_bits (f : Z -> Z) (l : list Z) (v : Z) : Z := fold_left (fun acc x => Z.lor acc (bit (f x))) l v.
 
+(* `if not tuple: v |= full` / `else: for x in tuple: v |= 1 << f(x)` *)
+Definition or_field (f : Z -> Z) (full : Z) (l : list Z) (v : Z) : Z :=
+  match l with [] => Z.lor v full | _ => or_bits f l v end.
+
 (* ring sizes: `for r in sizes: if r > 65: continue; v4 |= 1 << (65 - r)`, then `if not v4: v4 = 0x8000000000000000` *)
 Definition ring_bits (l : list Z) : Z :=
   let v := fold_left (fun acc r => if 65 <? r then acc else Z.lor acc (bit (65 - r))) l 0 in
@@ -70,8 +74,8 @@ Definition enc_x3 (iso : option Z) (num : Z) (x : qx) : Z :=
             (if x_rad x then 0x200000000000 else 0x100000000000)
     else if x_rad x then 0xffffe00000000000 else 0xffffd00000000000 in
   let v3 := Z.lor v3 (bit (x_chg x + 39)) in
-  let v3 := match x_h x with [] => Z.lor v3 0x7c0000000 | l => or_bits (fun h => h + 30) l v3 end in
-  match x_het x with [] => Z.lor v3 0x7fff | l => or_bits (fun n => n) l v3 end.
+  let v3 := or_field (fun h => h + 30) 0x7c0000000 (x_h x) v3 in
+  or_field (fun n => n) 0x7fff (x_het x) v3.
 
 Definition enc_x4 (x : qx) : Z :=
   match x_rings x with
@@ -92,8 +96,8 @@ Definition enc_qatom (q : qatom) (b : option qbond) : bits4 :=
         let '(v1, v2) := elem_masks num in
         (v1, v2, enc_x3 iso num x, enc_x4 x, x_nb x, x_hyb x)
     end in
-  let v3 := match nb with [] => Z.lor v3 0x3fff8000 | l => or_bits (fun n => n + 15) l v3 end in
-  let v2 := match hyb with [] => Z.lor v2 0xf | l => or_bits (fun n => n - 1) l v2 end in
+  let v3 := or_field (fun n => n + 15) 0x3fff8000 nb v3 in
+  let v2 := or_field (fun n => n - 1) 0xf hyb v2 in
   let v1 := match b with
             | None => v1
             | Some qb => Z.lor (qorder_bits (qb_ord qb) v1) (qring_bits (qb_ring qb))
